@@ -12,6 +12,9 @@
 #include "common.hpp"
 #include <map>
 #include <new>
+#include <exception>
+#include <unistd.h>
+#include <sys/wait.h>
 #include <xercesc/framework/MemoryManager.hpp>
 #include <xalanc/Include/XalanVector.hpp>
 #include <xalanc/Include/XalanList.hpp>
@@ -107,6 +110,13 @@ static void finish()
     out += L.ev;
     out += " | end out=" + num(L.live.size()) + " bad=" + (L.bad ? "1" : "0");
     for (std::map<void*, std::pair<long, int> >::iterator it = L.live.begin(); it != L.live.end(); ++it) std::free(it->first);
+}
+
+static void on_terminate()
+{
+    std::printf("%s | TERMINATE%s\n", out.c_str(), L.ev.c_str());
+    std::fflush(stdout);
+    _exit(0);
 }
 
 template <class T> struct Raw {      // storage whose destructor call we control
@@ -242,6 +252,17 @@ int main(int argc, char** argv)
             continue;
         }
         if (t.size() < 3) continue;
+        // every case runs in a forked child: a refusal inside a destructor that is reached from an operation
+        // (operator= destroying its temporary) is std::terminate, and known defects can crash
+        std::fflush(stdout);
+        pid_t pid = fork();
+        if (pid != 0) {
+            int st = 0;
+            waitpid(pid, &st, 0);
+            if (WIFSIGNALED(st)) { std::printf("%s | CRASH signal=%d\n", t[0].c_str(), WTERMSIG(st)); std::fflush(stdout); }
+            continue;
+        }
+        std::set_terminate(on_terminate);
         out = t[0];
         L.reset(t[2] == "-" ? -1 : std::strtol(t[2].c_str(), 0, 10));
         if (t[1] == "vec") run_vec(t);
@@ -250,9 +271,10 @@ int main(int argc, char** argv)
         else if (t[1] == "rarena" && t.size() > 3) run_arena<RArenaT>(t, true, false);
         else if (t[1] == "rarenad" && t.size() > 3) run_arena<RArenaT>(t, true, true);
         else if (t[1] == "map") run_map(t);
-        else continue;
+        else _exit(0);
         std::printf("%s\n", out.c_str());
         std::fflush(stdout);
+        _exit(0);
     }
     return 0;
 }
